@@ -26,6 +26,17 @@ CLAIMED = {
             "5 (C24)", "set equality with the reference model at quiescence"),
  "C25": sim("Same churn world; at quiescence at most one running Listen per party and one Session per ordered pair, relay-ended calls carry the replaced error, and after every call has been closed and drained the relay holds no per-peer or per-session state (verif accessor).",
             "5 (C25)", "uniqueness invariant at quiescence + replaced-error check + empty-state check at the end"),
+
+ "C08": sim("Real rwc.PacketConn pairs and stream_packet.Session pairs over a simulator-owned byte stream with driver-chosen chunking (split inside the length prefix, coalesced frames), per-run max sizes, queue depths and reader buffer sizes, raw zero/over-limit/huge length prefixes followed by further frames, EOF or reset mid-frame, slow readers; the k-th read must return exactly the k-th written packet, nothing after an invalid prefix.",
+            "5 (C08)", "refinement against the exact written packet sequence, per read", "Trusts go1.26.8 + runtime overlay and the simulated byte stream as a faithful io.ReadWriteCloser; writers run at driver steps (a frame is written by one Write call, so writer interleaving below frame granularity does not exist in the code). Sampling, not proof."),
+ "C09": sim("Real rwc.Conn pairs over the simulated byte stream: chunked delivery, partial underlying writes, read buffers from 1 byte up, per-run queue depth, EOF/reset at arbitrary offsets, final data returned together with the terminal error; every Conn.Read is matched against the pump chunk it must correspond to (byte cursor model).",
+            "5 (C09)", "byte-cursor reference model checked on every read + byte conservation at quiescence", "Same trusted base as C08."),
+ "C31": sim("Part (a) of the property: the real solicited-stream value under 2-4 concurrent callers of Accept/Close/IsAccepted with the driver deciding every interleaving at the scheduling points before each mutex acquisition; linearizability against the sequential model {accepted, closed} with porcupine, plus the single-owner and never-close-an-accepted-stream invariants. Part (b) (several local solicitations matching one incoming stream inside the controller) is not simulated yet.",
+            "5 (C31)", "porcupine linearizability of the recorded history + invariants", "Trusts porcupine v1.3.0 and the hook placement; the controller-level clause is not covered (stated in DESIGN.md)."),
+ "C33": sim("Real hold-open controller and handler against a fake directive instance with exact strong-reference accounting; value-added/removed callbacks for 1-3 links overlap across links (never reordered within one link) and the asynchronous reference acquisition lands at a driver-chosen later point; at quiescence a strong reference is held iff links exist.",
+            "5 (C33)", "equivalence (refs>0 iff links>0) at quiescence", "Trusts the fake directive.Instance as a faithful stand-in for controllerbus reference counting; callbacks of one value are serialized as a real bus does."),
+ "C39": sim("Real key-file loader against a scratch directory that the simulator puts into every state a crash during the non-atomic, non-fsynced write (any prefix, empty, missing) or an operator (garbage, other PEM types, directory, path below a file, symlink loop, dangling symlink, over-long name) can leave; sequences of loads and faults from the tape; every load must return a usable key or an error, and identities must be stable across reloads.",
+            "5 (C39)", "key-or-error invariant + identity stability against the file-state model", "Crash points are modelled on the resulting file content; no fault is injected inside os.ReadFile/os.WriteFile (no file-system seam). No concurrency dimension."),
 }
 
 NA_PURE = {
